@@ -64,7 +64,9 @@ func (Engine) Execute(planJSON json.RawMessage, scratch string) (res sim.RunResu
 	simrt.Start(p.Seed^p.SchedSeed, time.Unix(1_700_000_000, 0))
 	simrt.SetKnobs(p.Knobs.SnapEvery, p.Knobs.CleanupMinFree)
 	simrt.SetNumCPU(p.Knobs.NumCPU)
-	simrt.SetYield(p.Yield)
+	// the gate inside the converter job only with one simulated CPU: with more,
+	// how many conversions have finished when the job looks again is real time
+	simrt.SetYield(p.Yield && p.Knobs.NumCPU == 1)
 	defer simrt.Stop()
 
 	s.capt = netsim.Build(&p.Net)
